@@ -1922,3 +1922,159 @@ Proof.
   intros q P c. apply is_prefix_true in P as [r P].
   destruct q as [|q1 [|q2 q]]; simpl in P; inversion P; subst; vm_compute; discriminate.
 Qed.
+
+(* ================================================================== *)
+(* sequences of operations on one session: no hidden client state        *)
+
+Definition view : Type := list name -> option entry.
+
+(* [placed] reads the old file system only through [look] *)
+Definition placed_v (v : view) (A : list name) (src : tree) : view := fun q =>
+  match strip_prefix A q with
+  | Some r => match look src r with Some e => Some e | None => v q end
+  | None => if is_prefix q A then Some EDir else v q
+  end.
+
+Lemma placed_is_placed_v fs A src q : placed fs A src q = placed_v (look fs) A src q.
+Proof. reflexivity. Qed.
+
+(* what each operation is documented to do, as a function of (cwd, what is visible on the server, arguments) *)
+Definition spec_cwd (cwd : list name) (o : cop) : list name :=
+  match o with OCd p => resolve cwd p | _ => cwd end.
+
+Definition spec_view (v : view) (cwd : list name) (o : cop) : view :=
+  match o with
+  | OCd _ => v
+  | OMkdir p => fun q => if is_prefix q (resolve cwd p) then Some EDir else v q
+  | OUpload nm src dst wi => placed_v v (resolve cwd (final_destination nm dst wi)) src
+  | ORemove p => fun q => if is_prefix (resolve cwd p) q then None else v q
+  end.
+
+Lemma spec_view_ext v1 v2 cwd o : (forall q, v1 q = v2 q) -> forall q, spec_view v1 cwd o q = spec_view v2 cwd o q.
+Proof.
+  intros E q. destruct o; cbn [spec_view]; unfold placed_v; try rewrite E; try reflexivity.
+Qed.
+
+(* the hypotheses of the single-operation theorems, on the state the operation starts from *)
+Definition op_pre (st : cstate) (o : cop) : Prop :=
+  let (cwd, fs) := st in
+  match o with
+  | OCd p => exists ch, lookup fs (resolve cwd p) = Some (Dir ch)
+  | OMkdir p => (exists chc, lookup fs cwd = Some (Dir chc)) /\ no_file_on fs (resolve cwd p)
+  | OUpload nm (Dir ch) dst wi =>
+      (exists chc, lookup fs cwd = Some (Dir chc)) /\ wf_tree (Dir ch) /\
+      compat fs (resolve cwd (final_destination nm dst wi)) (Dir ch)
+  | OUpload nm (File c) dst wi =>
+      let dst' := final_destination nm dst wi in
+      (exists chc, lookup fs cwd = Some (Dir chc)) /\ p_parts dst' <> [] /\
+      no_file_on fs (removelast (resolve cwd dst')) /\
+      (forall ch, lookup fs (resolve cwd dst') <> Some (Dir ch))
+  | ORemove p => (exists t, lookup fs (resolve cwd p) = Some t) /\ resolve cwd p <> [] /\ wf_tree fs
+  end.
+
+(* one operation: it succeeds, moves the cwd as documented, and what is visible afterwards is the documented
+   function of what was visible before *)
+Lemma step_sound cwd fs o v :
+  op_pre (cwd, fs) o ->
+  (forall q, look fs q = v q) ->
+  exists fs', step true (cwd, fs) o = Ok (spec_cwd cwd o, fs') /\
+              forall q, look fs' q = spec_view v cwd o q.
+Proof.
+  intros P E.
+  assert (X : forall fs', (forall q, look fs' q = spec_view (look fs) cwd o q) ->
+                          forall q, look fs' q = spec_view v cwd o q).
+  { intros fs' H q. rewrite H. apply spec_view_ext. exact E. }
+  destruct o as [p|p|nm src dst wi|p]; cbn [op_pre step spec_cwd] in *.
+  - destruct P as [ch L]. exists fs. unfold r_cwd. rewrite L. split; [reflexivity|].
+    apply X. intro q. reflexivity.
+  - destruct P as [[chc Hc] NF]. exists (ensure_dir fs (resolve cwd p)).
+    rewrite (make_directory_exact cwd fs p chc Hc NF). split; [reflexivity|].
+    apply X. intro q. cbn [spec_view]. apply look_ensure_dir.
+  - destruct src as [c|ch].
+    + destruct P as ([chc Hc] & Hp & NF & ND).
+      destruct (upload_file_spec true cwd fs nm c dst wi chc Hc Hp NF ND) as [U V].
+      exists (graft fs (resolve cwd (final_destination nm dst wi)) (File c)).
+      rewrite U. split; [reflexivity|]. apply X. intro q. rewrite V. reflexivity.
+    + destruct P as ([chc Hc] & W & C).
+      destruct (upload_spec_view cwd fs nm ch dst wi chc Hc W C) as (fs' & U & V).
+      exists fs'. unfold upload in U. rewrite U. split; [reflexivity|].
+      apply X. intro q. rewrite V. reflexivity.
+  - destruct P as ([t L] & Ha & W).
+    destruct (remove_spec_full cwd t (S (tree_size fs)) fs p) as (R & O & G); auto.
+    { pose proof (fuel_enough _ _ _ L). lia. }
+    exists (remove_at fs (resolve cwd p)). rewrite R. split; [reflexivity|].
+    apply X. intro q. cbn [spec_view].
+    destruct (is_prefix (resolve cwd p) q) eqn:Q.
+    + apply is_prefix_true in Q as [r ->]. apply G. exact W.
+    + apply O. exact Q.
+Qed.
+
+(* the hypotheses along a sequence, each on the state the model has reached *)
+Fixpoint seq_pre (st : cstate) (ops : list cop) : Prop :=
+  match ops with
+  | [] => True
+  | o :: r => op_pre st o /\ forall st', step true st o = Ok st' -> seq_pre st' r
+  end.
+
+Fixpoint spec_seq (cwd : list name) (v : view) (ops : list cop) : list name * view :=
+  match ops with
+  | [] => (cwd, v)
+  | o :: r => spec_seq (spec_cwd cwd o) (spec_view v cwd o) r
+  end.
+
+(* a session = the fold of the single operations over (cwd, remote tree): every operation's effect is the
+   documented function of (cwd, what is visible on the server, its arguments) -- whatever came before it in
+   the session, in particular whatever directory the session was in when a path was used earlier *)
+Lemma seq_sound : forall ops cwd fs v,
+  (forall q, look fs q = v q) ->
+  seq_pre (cwd, fs) ops ->
+  exists fs', run_seq true (cwd, fs) ops = Ok (fst (spec_seq cwd v ops), fs') /\
+              forall q, look fs' q = snd (spec_seq cwd v ops) q.
+Proof.
+  induction ops as [|o ops IH]; intros cwd fs v E P.
+  - exists fs. split; [reflexivity|exact E].
+  - destruct P as [P1 P2].
+    destruct (step_sound cwd fs o v P1 E) as (fs1 & S1 & V1).
+    cbn [run_seq spec_seq]. rewrite S1. cbn [bind].
+    apply (IH (spec_cwd cwd o) fs1 (spec_view v cwd o) V1). apply P2. exact S1.
+Qed.
+
+(* the second use of a relative path after a change of directory resolves against the NEW cwd *)
+Lemma spec_cd_then_mkdir cwd v c p q :
+  snd (spec_seq cwd v [OCd c; OMkdir p]) q
+  = if is_prefix q (resolve (resolve cwd c) p) then Some EDir else v q.
+Proof. reflexivity. Qed.
+
+(* non-vacuity: upload a directory-only tree to the relative destination x, change to w, upload it to x
+   again -- the hypotheses hold along the way and /x/foo/d as well as /w/x/foo/d exist afterwards *)
+Definition n_w : name := [119].
+Definition n_d : name := [100].
+Definition seq_example : list cop :=
+  [OUpload n_foo (Dir [(n_d, Dir [])]) (mkp false [n_x]) false;
+   OCd (mkp false [n_w]);
+   OUpload n_foo (Dir [(n_d, Dir [])]) (mkp false [n_x]) false].
+
+Lemma seq_example_ok :
+  let fs := Dir [(n_w, Dir [])] in
+  seq_pre ([], fs) seq_example /\
+  exists fs', run_seq true ([], fs) seq_example = Ok ([n_w], fs') /\
+              look fs' [n_x; n_foo; n_d] = Some EDir /\
+              look fs' [n_w; n_x; n_foo; n_d] = Some EDir.
+Proof.
+  cbv zeta. split.
+  - unfold seq_example. cbn [seq_pre]. split.
+    + cbn [op_pre]. split; [eexists; reflexivity|]. split.
+      { simpl. repeat (split || constructor); simpl; intuition discriminate. }
+      apply compat_fresh; [|reflexivity].
+      intros q P c. apply is_prefix_true in P as [r P].
+      destruct q as [|q1 [|q2 [|q3 q]]]; simpl in P; inversion P; subst; vm_compute; discriminate.
+    + intros st1 E1. vm_compute in E1. inversion E1; subst st1; clear E1. split.
+      * cbn [op_pre]. eexists. vm_compute. reflexivity.
+      * intros st2 E2. vm_compute in E2. inversion E2; subst st2; clear E2. split; [|intros; exact Logic.I].
+        cbn [op_pre]. split; [eexists; vm_compute; reflexivity|]. split.
+        { simpl. repeat (split || constructor); simpl; intuition discriminate. }
+        apply compat_fresh; [|vm_compute; reflexivity].
+        intros q P c. apply is_prefix_true in P as [r P].
+        destruct q as [|q1 [|q2 [|q3 [|q4 q]]]]; simpl in P; inversion P; subst; vm_compute; discriminate.
+  - eexists. split; [vm_compute; reflexivity|]. split; vm_compute; reflexivity.
+Qed.
